@@ -3,6 +3,8 @@
 E1  AlgebraMC.tla: FunctionLaw, ComposeLaw (compose-as-coded = textbook), ChainLaw (<= 4 factors, any association),
     FactoryLaw; N=1 all matrices over -3..3, N=2..4 seeded samples.
 E2  emitted cases replayed exactly on covfie::algebra (float and double) and on affine<identity> views.
+    The same cases scaled by powers of two (matrix entries down to 2^-1035, coordinates up to 2^1018: every operation
+    still exact); the enumerated products formed concurrently by 8 threads (TSan, and -O2 without -pthread).
 E3  random integer operands (double: products beyond 2^24, float: below) computed by the real code, recomputed by TLC.
 """
 import os
@@ -33,4 +35,14 @@ def run(ck):
         s = ck.harness_output("algebra-trace-" + fl, rc, out, err)
         if rc == 0:
             ck.validate_trace("Trace_Algebra", "Trace_Algebra.cfg", tr, "algebra/trace-" + fl, n_traces=1, n_events=s.get("events", 0))
+    # hidden state: the products of the enumerated pairs formed by 8 threads at once, each on private operands, under
+    # ThreadSanitizer and in the plain -O2 build (with and without -pthread: the library is header-only)
+    for sp, b, log in ck.build_many([{"name": "h_algebra_t", "sources": "h_algebra.cpp", "flavour": "tsan", "libs": ["-pthread"]},
+                                     {"name": "h_algebra_t", "sources": "h_algebra.cpp", "flavour": "rel", "libs": []}]):
+        if not b:
+            ck.compile_violation("h_algebra/threads-" + sp["flavour"], log)
+            continue
+        rc, out, err = ck.run([b, "threads", cases, "8"], timeout=900)
+        s = ck.harness_output("algebra-threads-" + sp["flavour"], rc, out, err)
+        ck.cov["impl_checks"] += s.get("checks", 0)
     ck.assume("exact domain only: the relative-error bound for arbitrary finite floats is not decided by this technique (DESIGN.md section 6)")
